@@ -19,6 +19,12 @@ use crate::refs::spec;
 /// bits[i] = output of sampler call i relative to floor(centre); `flip` reverses the direction
 /// (the sign convention of the signer's target is found by trying both).
 pub fn plan<V: Fv>(sk: &V::Sk, j: usize, flip: bool) -> Option<Vec<bool>> {
+    plan_half::<V>(sk, j, flip, true)
+}
+
+/// As `plan`, for coefficient j of s2 (`second_half`) or of s1 (the half of the signature
+/// vector that is not transmitted: the verifier recomputes it as c - s2 h).
+pub fn plan_half<V: Fv>(sk: &V::Sk, j: usize, flip: bool, second_half: bool) -> Option<Vec<bool>> {
     let n = V::N;
     let b0 = V::basis(sk);
     let tf = |p: &Vec<i16>, neg: bool| p.iter().map(|&x| if neg { -(x as f64) } else { x as f64 }).collect::<Vec<f64>>();
@@ -28,11 +34,13 @@ pub fn plan<V: Fv>(sk: &V::Sk, j: usize, flip: bool) -> Option<Vec<bool>> {
     // (the signer uses t = (c F, -c f)/q for v = (c | 0)); an overall sign is left to `flip`
     let mut xj = vec![0.0f64; n];
     xj[j] = 1.0;
-    let (xh, gh, cgh) = (ffs::fft(&xj), ffs::fft(&g), ffs::fft(&cg));
+    let xh = ffs::fft(&xj);
+    // v = (0 | x^j): t = (x^j G, -x^j g)/q;  v = (x^j | 0): t = (x^j F, -x^j f)/q
+    let (ah, bh) = if second_half { (ffs::fft(&cg), ffs::fft(&g)) } else { (ffs::fft(&cf), ffs::fft(&f)) };
     let q = spec::Q as f64;
     let sgn = if flip { -1.0 } else { 1.0 };
-    let t0: Vec<ffs::C> = (0..n).map(|i| xh[i].mul(cgh[i]).scale(sgn / q)).collect();
-    let t1: Vec<ffs::C> = (0..n).map(|i| xh[i].mul(gh[i]).scale(-sgn / q)).collect();
+    let t0: Vec<ffs::C> = (0..n).map(|i| xh[i].mul(ah[i]).scale(sgn / q)).collect();
+    let t1: Vec<ffs::C> = (0..n).map(|i| xh[i].mul(bh[i]).scale(-sgn / q)).collect();
     let zeros = vec![0i64; 2 * n];
     let mut rp = ffs::Replay { zs: &zeros, pos: 0, expected: Vec::with_capacity(2 * n) };
     ffs::ffsampling(&t0, &t1, &tree, &mut rp)?;
